@@ -1648,11 +1648,17 @@ func (c *control) dirIter(colon, at bool, params []any) {
 			if (len(c2.args) <= c2.argPos && !atLeastOnce) || c2.stop {
 				break
 			}
+			before := c2.argPos
 			c2.pos = start
 			c2.process()
 			c.out = append(c.out, c2.out...)
 			c2.out = c2.out[:0]
 			atLeastOnce = false
+			if c2.argPos <= before && c2.argPos < len(c2.args) && !c2.stop && n == math.MaxInt {
+				// No limit and no argument consumed, it would never end.
+				slip.ErrorPanic(c.scope, 0,
+					"iteration directive consumes no arguments and has no limit at %d of %q", start, c.str)
+			}
 		}
 		c.argPos = c2.argPos
 	default:
@@ -1669,11 +1675,17 @@ func (c *control) dirIter(colon, at bool, params []any) {
 			if (len(c2.args) <= c2.argPos && !atLeastOnce) || c2.stop {
 				break
 			}
+			before := c2.argPos
 			c2.pos = start
 			c2.process()
 			c.out = append(c.out, c2.out...)
 			c2.out = c2.out[:0]
 			atLeastOnce = false
+			if c2.argPos <= before && c2.argPos < len(c2.args) && !c2.stop && n == math.MaxInt {
+				// No limit and no argument consumed, it would never end.
+				slip.ErrorPanic(c.scope, 0,
+					"iteration directive consumes no arguments and has no limit at %d of %q", start, c.str)
+			}
 		}
 	}
 }
